@@ -494,6 +494,8 @@ func (r *yieldRewriter) rewriteSwitchStmt(
 			x,
 			body,
 		)
+		// the extracted init may end in a non-trival stmt (YieldFrom is lowered to a loop)
+		children = r.combineIfNecessary(children)
 		children.push(switchStmt, kindTrival)
 		return children
 	}
